@@ -248,6 +248,9 @@ func main() {
 					if m != nil && m["name"] == "T_Beacon" {
 						if feat, ok := m["identifying_features"].(map[string]any); ok {
 							feat["string_patterns"] = []any{"cmd-aaa", "cmd-bbb"}
+							// a required call that is a substring of SEVERAL calls of the function
+							// (strings.Count, strconv.Itoa): which one satisfies it must not show
+							feat["required_calls"] = []any{"str"}
 						}
 					}
 				}
